@@ -125,6 +125,26 @@ pub fn idle_shutdown() -> Scenario {
     )
 }
 
+/// One side shuts down at once while the other still has data on its way (uTP has no half-close: the
+/// late side's writer is cut short by design, but whatever it was told is delivered must arrive).
+pub fn early_shutdown() -> Scenario {
+    base(
+        "early-shutdown",
+        app(vec![WOp::Write(20), WOp::Shutdown], vec![ROp::ReadToEof(64)]),
+        app(vec![WOp::Write(70), WOp::Shutdown], vec![ROp::ReadToEof(64)]),
+    )
+}
+
+/// MTU-probing transfer that ends by dropping both halves right after the write (no flush, no
+/// shutdown): the FIN has to wait for everything that was accepted, also for what is still queued
+/// behind an outstanding probe.
+pub fn mtu_drop_close(link_mtu: usize, blackhole_above: Option<usize>, bytes: usize) -> Scenario {
+    let mut s = mtu_transfer(link_mtu, blackhole_above, None, bytes, false);
+    s.name = format!("{}-drop-close", s.name);
+    s.app_a = app(vec![WOp::Write(bytes), WOp::Drop], vec![ROp::Drop]);
+    s
+}
+
 /// the scenarios on which faults are enumerated
 pub fn core() -> Vec<Scenario> {
     vec![a2b_bulk(), both_ways(), slow_reader(), small_writes(), fin_behind_data(), ping_pong(), tiny_rx(), drop_close(), idle_shutdown()]
